@@ -4,6 +4,7 @@ package main
 // are cut points, calls use the callee contract or are inlined.
 
 import (
+	"go/ast"
 	"os"
 	"fmt"
 	"time"
@@ -299,7 +300,7 @@ func (x *Exec) oblige(st *State, kind, label string, props []string, goal *Term,
 		return
 	}
 	defer func() {
-		if kind == "safety" {
+		if kind == "safety" && x.mayAssume(kind, label) {
 			st.assume(goal)
 		}
 	}()
@@ -328,6 +329,25 @@ func (x *Exec) oblige(st *State, kind, label string, props []string, goal *Term,
 		o.Pos = fmt.Sprintf("%s:%d", shortFile(p.Filename), p.Line)
 	}
 	x.obls = append(x.obls, o)
+}
+
+// mayAssume: an asserted fact (a safety condition, a callee's precondition) is assumed for the
+// rest of the path only if the obligation is one the unchanged tree is known to have (proved or
+// recorded as undecided there).  An obligation that appears only on changed code may well be
+// false; assuming it could make the path inconsistent and everything after it vacuously true.
+func (x *Exec) mayAssume(kind, label string) bool {
+	if x.w.knownNames == nil {
+		return true // ledger generation / sweep: no record to compare with
+	}
+	return x.w.knownNames[x.rootKey+"#"+kind+"#"+label]
+}
+
+// obligeAssume: assert, then rely on it (see mayAssume).
+func (x *Exec) obligeAssume(st *State, kind, label string, props []string, goal *Term, pos token.Pos) {
+	x.oblige(st, kind, label, props, goal, pos)
+	if x.mayAssume(kind, label) {
+		st.assume(goal)
+	}
 }
 
 func shortFile(f string) string {
@@ -839,7 +859,7 @@ func (x *Exec) runBlock(st *State, b *ssa.BasicBlock, pred *ssa.BasicBlock, k co
 		if pred != nil {
 			if lp := li.byHeader[pred]; lp != nil && !lp.blocks[b] {
 				if fc := x.w.contracts[funcKey(fr.fn)]; fc != nil {
-					for _, c := range fc.Loops[lp.ord] {
+					for _, c := range x.w.loopClauses(fr.fn, fc, lp) {
 						if c.Kind != "exit" {
 							continue
 						}
@@ -848,7 +868,7 @@ func (x *Exec) runBlock(st *State, b *ssa.BasicBlock, pred *ssa.BasicBlock, k co
 							x.contractError(c, err)
 							continue
 						}
-						x.oblige(st, "loop-exit", fmt.Sprintf("loop%d:%s", lp.ord, c.Label), c.Props, g, token.NoPos)
+						x.oblige(st, "loop-exit", loopOblName(lp, c), c.Props, g, token.NoPos)
 					}
 				}
 			}
@@ -1597,7 +1617,7 @@ func (x *Exec) handleLoopHead(st *State, fr *Frame, lp *Loop, b, pred *ssa.Basic
 	var clauses []*Clause
 	unroll := false
 	if fc := x.w.contracts[funcKey(fr.fn)]; fc != nil {
-		for _, c := range fc.Loops[lp.ord] {
+		for _, c := range x.w.loopClauses(fr.fn, fc, lp) {
 			if c.Kind == "unroll" {
 				unroll = true
 			} else if c.Kind != "exit" {
@@ -1635,7 +1655,7 @@ func (x *Exec) handleLoopHead(st *State, fr *Frame, lp *Loop, b, pred *ssa.Basic
 				x.contractError(c, err)
 				continue
 			}
-			x.oblige(st, "invariant-preserved", fmt.Sprintf("loop%d:%s", lp.ord, c.Label), c.Props, g, b.Instrs[0].Pos())
+			x.oblige(st, "invariant-preserved", loopOblName(lp, c), c.Props, g, b.Instrs[0].Pos())
 		}
 		for _, g := range x.autoInvariants(st, fr, lp, b) {
 			x.oblige(st, "invariant-preserved", fmt.Sprintf("loop%d:auto:%s", lp.ord, g.name), []string{"C13"}, g.t, token.NoPos)
@@ -1650,7 +1670,7 @@ func (x *Exec) handleLoopHead(st *State, fr *Frame, lp *Loop, b, pred *ssa.Basic
 			x.contractError(c, err)
 			continue
 		}
-		x.oblige(st, "invariant-entry", fmt.Sprintf("loop%d:%s", lp.ord, c.Label), c.Props, g, b.Instrs[0].Pos())
+		x.oblige(st, "invariant-entry", loopOblName(lp, c), c.Props, g, b.Instrs[0].Pos())
 	}
 	auto0 := x.autoInvariants(st, fr, lp, b)
 	for _, g := range auto0 {
@@ -2063,4 +2083,96 @@ func replaceAtoms(t *Term, facts map[string]*Term) *Term {
 		return Quant(t.Op, t.Bound, b)
 	}
 	return t
+}
+
+
+// loopClauses: the clauses of a loop: those given by ordinal plus those naming the loop by a piece
+// of its header text.  Text keys are resolved once per function against its syntax tree: the
+// k-th loop statement in source order is the k-th natural loop; a key must occur in the header
+// of exactly one loop.
+func (w *World) loopClauses(fn *ssa.Function, fc *FuncContract, lp *Loop) []*Clause {
+	if len(fc.LoopsByText) > 0 && !fc.textResolved {
+		fc.textResolved = true
+		heads := loopHeaderTexts(fn)
+		li := loopInfoFor(fn)
+		keys := make([]string, 0, len(fc.LoopsByText))
+		for k := range fc.LoopsByText {
+			keys = append(keys, k)
+		}
+		sort.Strings(keys)
+		for _, key := range keys {
+			cs := fc.LoopsByText[key]
+			match := 0
+			if li != nil && len(heads) == len(li.loops) {
+				for i, h := range heads {
+					if strings.Contains(h, key) {
+						if match != 0 {
+							match = -1
+							break
+						}
+						match = i + 1
+					}
+				}
+			}
+			if match <= 0 {
+				if li != nil {
+					fmt.Printf("  (loops in SSA: %d, loop statements: %d)\n", len(li.loops), len(heads))
+				}
+				fmt.Printf("CONTRACT-ERROR %s:%d loop @%q of %s: names %s\n", shortFile(cs[0].File), cs[0].Line, key, fn.Name(),
+					map[bool]string{true: "more than one loop", false: "no loop (headers: " + strings.Join(heads, " | ") + ")"}[match < 0])
+				continue
+			}
+			for _, c := range cs {
+				c.Loop = match
+				fc.Loops[match] = append(fc.Loops[match], c)
+			}
+		}
+	}
+	return fc.Loops[lp.ord]
+}
+
+// loopHeaderTexts: the header of every for / range statement of fn in source order (function
+// literals inside fn have their own list).
+func loopHeaderTexts(fn *ssa.Function) []string {
+	syn := fn.Syntax()
+	if syn == nil {
+		return nil
+	}
+	var body *ast.BlockStmt
+	switch n := syn.(type) {
+	case *ast.FuncDecl:
+		body = n.Body
+	case *ast.FuncLit:
+		body = n.Body
+	}
+	if body == nil {
+		return nil
+	}
+	var out []string
+	ast.Inspect(body, func(n ast.Node) bool {
+		switch s := n.(type) {
+		case *ast.FuncLit:
+			return false
+		case *ast.RangeStmt:
+			out = append(out, "range "+types.ExprString(s.X))
+		case *ast.ForStmt:
+			h := "for"
+			if s.Cond != nil {
+				h += " " + types.ExprString(s.Cond)
+			}
+			out = append(out, h)
+		}
+		return true
+	})
+	return out
+}
+
+
+// loopOblName: a loop clause's obligation is named by the loop's ordinal, or by its header key
+// when the clause names the loop that way (stable when other loops come and go).
+func loopOblName(lp *Loop, c *Clause) string {
+	if c.LoopKey != "" {
+		return "loop@" + strings.ReplaceAll(c.LoopKey, " ", "_") + ":" + c.Label
+	}
+	return fmt.Sprintf("loop%d:%s", lp.ord, c.Label)
 }
